@@ -583,7 +583,7 @@ def alternatives(t: Term, guards: Tuple[Guard, ...] = ()) -> List[Tuple[Tuple[Gu
 _BUILTINS = {
     'len', 'tuple', 'list', 'set', 'dict', 'str', 'int', 'float', 'bool', 'abs', 'min', 'max', 'sum', 'any', 'all',
     'isinstance', 'getattr', 'setattr', 'hasattr', 'zip', 'reversed', 'range', 'repr', 'type', 'object', 'print',
-    'sorted', 'enumerate', 'iter', 'next', 'map', 'filter', 'vars', 'super', 'id', 'hash', 'complex', 'frozenset',
+    'sorted', 'enumerate', 'iter', 'next', 'map', 'filter', 'vars', 'super', 'id', 'hash', 'complex', 'frozenset', 'property',
     'ValueError', 'TypeError', 'KeyError', 'IndexError', 'AssertionError', 'NotImplementedError', 'Exception',
     'ZeroDivisionError', 'SyntaxError', 'KeyboardInterrupt', 'AttributeError', 'RuntimeError', 'StopIteration',
     'UnboundLocalError', 'NameError', 'OSError', 'FileNotFoundError', 'BaseException', 'ArithmeticError',
@@ -2044,7 +2044,11 @@ class Evaluator:
                     if name in c.class_assigns:
                         if any(name in sc.class_assigns or sc.field(name) is not None for sc in self.m.subclasses(bt, strict=True)):
                             break   # a subclass may say otherwise
-                        return self.expr(c.class_assigns[name], _State(), c.module, None, depth)
+                        cv = self.expr(c.class_assigns[name], _State(), c.module, None, depth)
+                        if isinstance(cv, Call) and isinstance(cv.func, Ext) and cv.func.name == 'property' and len(cv.args) >= 1 and not cv.kwargs:
+                            # name = property(getter): reading it through an instance calls the getter on the instance
+                            return self.apply(cv.args[0], (base,), (), st, depth)
+                        return cv
             # defined only in subclasses
             return key
         return key
@@ -2096,7 +2100,7 @@ class Evaluator:
         star = False
         for a in e.args:
             if isinstance(a, ast.Starred):
-                v = self.expr(a.value, st, mod, fi, depth)
+                v = self._as_tuple(self.expr(a.value, st, mod, fi, depth), st, depth)    # f(*record) of a NamedTuple passes its fields
                 if isinstance(v, TupleT):
                     args.extend(v.items)
                 else:
